@@ -108,7 +108,13 @@ def main(chk: core.Check) -> int:
                     if backend == "native":
                         with rc.NativeBackedReader():
                             with pybes3.open_raw(path) as r:
+                                if idx % 3 == 0 and bl:
+                                    r.arrays(n_blocks=1, sub_detectors=sel, decode_reid=False)       # an earlier partial read must not matter
                                 arr = r.arrays(sub_detectors=sel, decode_reid=False, n_block_per_batch=rng.choice([1, 2, 3, 1000]))
+                                if idx % 2 == 0:
+                                    again = r.arrays(sub_detectors=sel, decode_reid=False)
+                                    if rc.ak_to_records(again, sel) != rc.ak_to_records(arr, sel):
+                                        raise AssertionError(f"second arrays() call on the same reader returned {len(again)} records, first returned {len(arr)}")
                                 entries = r.entries
                     else:
                         with pybes3.open_raw(path) as r:
